@@ -27,7 +27,7 @@ def shards(tier):
 
 
 def required_classes(tier):
-    return ["prog:derived-class", "prog:deg1", "prog:deg2", "prog:deg12", "prog:adhoc", "W4:depth1", "sgn0:FQ", "sgn0:FQ2", "sgn0:FQ12", "sgn0:zero-first-coeff", "sgn0:after-neg",
+    return ["prog:near-power-of-two-prime", "prog:derived-class", "prog:deg1", "prog:deg2", "prog:deg12", "prog:adhoc", "W4:depth1", "sgn0:FQ", "sgn0:FQ2", "sgn0:FQ12", "sgn0:zero-first-coeff", "sgn0:after-neg",
             "leaf:FQ-object-coeffs", "cmp"]
 
 
@@ -288,6 +288,21 @@ def run(rec):
                 rec.case("prog:derived-class", ("progd", p, mc, tuple(prog), tuple(leaves)), sample={"field": "derived from %s with modulus %r" % (base_o.__name__, mc), "program": prog})
                 run_program(rec, "prog:derived-class", rcls, ocls, F, prog, leaves)
             break
+    # extension fields over primes just below a power of two, leaves with all-maximal / top-range coefficients
+    m12 = __import__("random").Random(777)
+    np2 = [31, 61, 127, 8191, (1 << 61) - 1, (1 << 255) - 19, 2 ** 256 - 2 ** 32 - 977]
+    for p in (np2 if not quick else [np2[(rec.shard + k) % len(np2)] for k in range(2)]):
+        for d in (12, 2):
+            mc = find_irreducible(p, d, m12, sparse=True)
+            rcls, F = G.adhoc_class("ref", p, mc, tag="_np2")
+            ocls, _ = G.adhoc_class("opt", p, mc, tag="_np2")
+            tops = [tuple(p - 1 for _ in range(d)), tuple(p - 1 - rng.randrange(0, max(2, p // 16)) for _ in range(d)), tuple(p - 2 for _ in range(d))]
+            for rep in range(3 if quick else 20):
+                leaves = [rng.choice(tops), rng.choice(tops)]
+                prog = gen_program(rng, d, 2, 5, 12, p)
+                rec.case("prog:near-power-of-two-prime", ("prognp2", p, mc, tuple(prog), tuple(leaves)), sample={"field": "GF(%d^%d)" % (p, d) if p < 10 ** 6 else "GF(p^%d), p just below 2^%d" % (d, p.bit_length()), "leaves": "top of the coefficient range"})
+                run_program(rec, "prog:near-power-of-two-prime", rcls, ocls, F, [("leaf", 0), ("leaf", 1), ("mul", 0, 1), ("mul", 2, 0), ("sub", 3, 1)], leaves)
+                run_program(rec, "prog:near-power-of-two-prime", rcls, ocls, F, prog, leaves)
     # W4: all depth-1 programs on small fields
     small = [(p, None) for p in (2, 3, 5, 7)] + [(p, mc) for p in (3, 5) for mc in G.irreducible_quadratics(p)[: (2 if quick else 99)]]
     for p, mc in small:
